@@ -6,6 +6,7 @@
 #include <cstdint>
 #include <cstdio>
 #include <cstdlib>
+#include <functional>
 #include <numeric>
 #include <sstream>
 #include <string>
@@ -118,6 +119,50 @@ inline EdgeList family(const std::string &spec) {
     fprintf(stderr, "unknown family %s\n", spec.c_str()); exit(2);
 }
 
+// ---- "blob grammar": a finite, completely enumerable family of larger structured graphs ----
+// A blob is a hub with a multiset of at most K attachments from the menu
+//   0 leaf, 1 pendant path of 2, 2 triangle through the hub, 3 4-cycle through the hub, 4 triangle hanging on a bridge, 5 K4 through the hub
+// or a bare cycle C_3..C_6. A graph of the family is a disjoint union of at most T blobs (as a multiset), optionally
+// with the vertex numbering reversed. These graphs have up to ~30 vertices with pendant trees, repeated clean-up of
+// low-degree vertices, many components and several cycles sharing a cut vertex - shapes that G(n<=7) cannot contain.
+struct BlobUniverse {
+    int K, T;
+    std::vector<std::vector<int>> blobs;           // attachment multiset, or {-k} for a bare cycle C_k
+    std::vector<std::array<int, 3>> unions;        // blob ids, -1 = unused slot
+    BlobUniverse(int K, int T) : K(K), T(T) {
+        std::vector<int> cur;
+        std::function<void(int, int)> rec = [&](int from, int left) { blobs.push_back(cur); if (!left) return; for (int p = from; p < 6; ++p) { cur.push_back(p); rec(p, left - 1); cur.pop_back(); } };
+        rec(0, K);
+        for (int k = 3; k <= 6; ++k) blobs.push_back({-k});
+        int B = (int) blobs.size();
+        for (int a = 0; a < B; ++a) { unions.push_back({a, -1, -1}); if (T >= 2) for (int b = a; b < B; ++b) { unions.push_back({a, b, -1}); if (T >= 3) for (int c = b; c < B; ++c) unions.push_back({a, b, c}); } }
+    }
+    uint64_t size() const { return unions.size() * 2; }
+    void add_blob(EdgeList &g, const std::vector<int> &bl) const {
+        auto E = [&](int a, int b) { g.e.push_back({std::min(a, b), std::max(a, b)}); };
+        if (!bl.empty() && bl[0] < 0) { int k = -bl[0], base = g.n; g.n += k; for (int i = 0; i < k; ++i) E(base + i, base + (i + 1) % k); return; }
+        int h = g.n++;
+        for (int p : bl) {
+            int a = g.n;
+            switch (p) {
+            case 0: g.n += 1; E(h, a); break;
+            case 1: g.n += 2; E(h, a); E(a, a + 1); break;
+            case 2: g.n += 2; E(h, a); E(a, a + 1); E(a + 1, h); break;
+            case 3: g.n += 3; E(h, a); E(a, a + 1); E(a + 1, a + 2); E(a + 2, h); break;
+            case 4: g.n += 3; E(h, a); E(a, a + 1); E(a + 1, a + 2); E(a + 2, a); break;
+            case 5: g.n += 3; E(h, a); E(h, a + 1); E(h, a + 2); E(a, a + 1); E(a, a + 2); E(a + 1, a + 2); break;
+            }
+        }
+    }
+    EdgeList build(uint64_t idx) const {
+        bool rev = idx & 1; const auto &u = unions[idx >> 1];
+        EdgeList g;
+        for (int i = 0; i < 3; ++i) if (u[i] >= 0) add_blob(g, blobs[u[i]]);
+        if (rev) for (auto &e : g.e) { int a = g.n - 1 - e.first, b = g.n - 1 - e.second; e = {std::min(a, b), std::max(a, b)}; }
+        return g;
+    }
+};
+
 // ---- union-find ----
 struct UF {
     std::vector<int> p;
@@ -213,6 +258,8 @@ inline std::vector<double> alphabet(const std::string &name) {
     if (name == "D") return {0.25, 0.5, 0.75};
     if (name == "F") return {0.1, 0.2, 0.3};
     if (name == "F4") return {0.1, 0.2, 0.3, 0.7};
+    if (name == "M2") return {-2};      // deterministic pattern w_i = 1 + (i mod 2): one weighting per graph (for graphs too large for all weightings)
+    if (name == "M3") return {-3};      // w_i = 1 + (i mod 3)
     if (name == "P") return {1, 2, 4, 8, 16, 32, 64, 128, 256, 512, 1024, 2048, 4096, 8192, 16384, 32768, 65536, 131072, 262144, 524288, 1048576};
     fprintf(stderr, "unknown alphabet %s\n", name.c_str()); exit(2);
 }
@@ -220,6 +267,7 @@ inline std::vector<double> alphabet(const std::string &name) {
 // weighting number `idx` (base |A|, edge 0 = least significant digit)
 inline void weighting(const std::vector<double> &A, int m, uint64_t idx, std::vector<double> &w) {
     w.resize(m);
+    if (A.size() == 1 && A[0] < 0) { int k = (int) -A[0]; for (int i = 0; i < m; ++i) w[i] = 1 + i % k; return; }
     for (int i = 0; i < m; ++i) { w[i] = A[idx % A.size()]; idx /= A.size(); }
 }
 
